@@ -18,11 +18,20 @@ theorem lookup_spelling (g : Graph) (n n' : Bytes) (h : Canon.canon n = Canon.ca
 theorem unknown_rejected (g : Graph) (a : Run.Args) (s : S) (n : Bytes) (ns : List Bytes)
     (hl : Run.lookup g n = .ok none) (had : a.adopt = false) :
     Run.wantTargets g a s (n :: ns) = .err ("unknown path requested: " ++ stringOfBytes n) s := by
-  unfold Run.wantTargets; simp [hl, had]
+  unfold Run.wantTargets; simp [Run.lookupM, hl, had]
+
+/-- ... and so is a name that only the build log knows (an output of a step that was removed
+    from the manifest, a header seen in a depfile): file ids at or beyond `manifest_files` do not
+    resolve (finding F13, repaired). -/
+theorem log_only_name_rejected (g : Graph) (a : Run.Args) (s : S) (n : Bytes) (ns : List Bytes) (t k : Nat)
+    (hl : Run.lookup g n = .ok (some t)) (hk : a.manifestFiles = some k) (hge : k ≤ t) (had : a.adopt = false) :
+    Run.wantTargets g a s (n :: ns) = .err ("unknown path requested: " ++ stringOfBytes n) s := by
+  have hnot : ¬ t < k := by omega
+  unfold Run.wantTargets; simp [Run.lookupM, hl, hk, hnot, had]
 
 /-- The manifest itself, named as a target, is not wanted a second time. -/
 theorem manifest_target_skipped (g : Graph) (a : Run.Args) (s : S) (n : Bytes) (ns : List Bytes)
-    (hl : Run.lookup g n = .ok (some a.manifest)) :
+    (hl : Run.lookupM g a n = .ok (some a.manifest)) :
     Run.wantTargets g a s (n :: ns) = Run.wantTargets g a s ns := by
   conv => lhs; unfold Run.wantTargets
   simp [hl]
